@@ -253,49 +253,77 @@ Proof. exact spm_not_componentwise. Qed.
 Print Assumptions C49_starting_path_matcher_refuted.
 
 (* ---- values round-trip ---------------------------------------------------------------------
-   [cobj_quote] models ConfigObj._quote (environment), [unquote] is IniFileStore.unquote,
+   [cobj_quote] models ConfigObj._quote (environment), [unquote] is IniFileStore.unquote
+   (as repaired in /repo 4293772: a matching triple quote is removed first),
    [set_get_mem v] = Stack.set then Stack.get on the same stack, [set_save_get v] =
    Stack.set, save, Stack.get through a fresh stack ([file_raw] models what ConfigObj
    writes and parses back; tied by the correspondence run only: hence _partial). *)
 
-(* the full statement ("any text value is read back unchanged") is FALSE: *)
-Theorem C49_store_roundtrip_refuted_newline :
-  exists v, value_safe v = true /\
-            set_get_mem v = Some ([34; 34] ++ v ++ [34; 34]) /\
-            set_save_get v = SOk ([34; 34] ++ v ++ [34; 34]) /\
-            set_get_mem v <> Some v /\ set_save_get v <> SOk v.
-Proof. exact roundtrip_refuted_newline. Qed.
-Print Assumptions C49_store_roundtrip_refuted_newline.
+(* in memory: EVERY value that Stack.set accepts is read back unchanged (newlines, both
+   kinds of quote, ... included); the only exclusion is ConfigObj's loud refusal *)
+Theorem C49_store_roundtrip_mem : forall v,
+  cobj_quote v <> None -> set_get_mem v = Some v.
+Proof. exact set_get_mem_roundtrip. Qed.
+Print Assumptions C49_store_roundtrip_mem.
 
+(* ... and Stack.set refuses exactly the values that need triple quotes and contain
+   both triple-quote sequences (ConfigObjError, nothing is stored) *)
+Theorem C49_store_refusal : forall v,
+  cobj_quote v = None <->
+  need_triple v = true /\ containsb q3d v = true /\ containsb q3s v = true.
+Proof. exact cobj_quote_refuses_iff. Qed.
+Print Assumptions C49_store_refusal.
+
+(* through the file the full statement is still FALSE: a single-line value with both
+   kinds of quote that starts and ends with the same quote loses that pair *)
 Theorem C49_store_roundtrip_refuted_mixed_quotes :
-  exists v, value_safe v = true /\ memb cNL v = false /\
-            set_get_mem v = Some ([34; 34] ++ v ++ [34; 34]) /\
-            set_save_get v = SOk (removelast (tl v)) /\
-            set_get_mem v <> Some v /\ set_save_get v <> SOk v.
-Proof. exact roundtrip_refuted_mixed_quotes. Qed.
+  exists v, value_safe v = true /\ quote_residue v = true /\
+            set_get_mem v = Some v /\
+            set_save_get v = SOk (removelast (tl v)) /\ set_save_get v <> SOk v.
+Proof. exact file_roundtrip_refuted. Qed.
 Print Assumptions C49_store_roundtrip_refuted_mixed_quotes.
 
-(* guarded, with an executable guard, and exact for the in-memory path:
-   the value survives iff it has no newline and not both kinds of quote *)
-Theorem C49_store_roundtrip_guarded : forall v,
-  set_get_mem v = Some v <-> need_triple v = false.
-Proof. exact mem_roundtrip_iff. Qed.
-Print Assumptions C49_store_roundtrip_guarded.
-
-(* through the file: same guard; ConfigObj's write/parse is a model -> _partial *)
-Theorem C49_store_roundtrip_partial : forall v,
-  need_triple v = false -> set_save_get v = SOk v.
+(* guarded (executable guard [quote_residue]); ConfigObj's write/parse is a model -> _partial.
+   [file_raw v = SOk r]: neither Stack.set nor save raised ConfigObjError *)
+Theorem C49_store_roundtrip_partial : forall v r,
+  file_raw v = SOk r -> quote_residue v = false -> set_save_get v = SOk v.
 Proof. exact file_roundtrip_guarded. Qed.
 Print Assumptions C49_store_roundtrip_partial.
 
-(* the breezy half alone: unquote undoes one pair of quotes, whatever is inside *)
+(* the breezy half alone: unquote undoes triple quotes, and one pair of quotes
+   around a text free of that quote *)
+Theorem C49_unquote_inverts_triple_quotes : forall q3 v,
+  q3 = q3d \/ q3 = q3s -> unquote (q3 ++ v ++ q3) = v.
+Proof. exact unquote_triple. Qed.
+Print Assumptions C49_unquote_inverts_triple_quotes.
+
 Theorem C49_unquote_inverts_quotes : forall q v,
-  q = cDQ \/ q = cSQ -> unquote (q :: v ++ [q]) = v.
+  q = cDQ \/ q = cSQ -> memb q v = false -> unquote (q :: v ++ [q]) = v.
 Proof. exact unquote_wrap. Qed.
 Print Assumptions C49_unquote_inverts_quotes.
 
+(* the OLD behaviour (before 4293772, [unquote_old] = ConfigObj._unquote alone):
+   a value survived in memory iff it had no newline and not both kinds of quote *)
+Theorem C49_old_store_roundtrip_guarded : forall v,
+  set_get_mem_old v = Some v <-> need_triple v = false.
+Proof. exact mem_roundtrip_old_iff. Qed.
+Print Assumptions C49_old_store_roundtrip_guarded.
+
+Theorem C49_old_store_roundtrip_refuted_newline :
+  exists v, value_safe v = true /\
+            set_get_mem_old v = Some ([34; 34] ++ v ++ [34; 34]) /\ set_get_mem_old v <> Some v.
+Proof. exact old_roundtrip_refuted_newline. Qed.
+Print Assumptions C49_old_store_roundtrip_refuted_newline.
+
 Example C49_roundtrip_example :
   let v := lit " a,b#c=d\e 'f' " in
-  need_triple v = false /\ set_get_mem v = Some v /\ set_save_get v = SOk v /\
+  quote_residue v = false /\ set_get_mem v = Some v /\ set_save_get v = SOk v /\
   mem_raw v <> Some v.
 Proof. exact roundtrip_example. Qed.
+
+(* the witnesses of the repaired findings now round-trip *)
+Example C49_repaired_examples :
+  set_get_mem [97; 10; 98] = Some [97; 10; 98] /\ set_save_get [97; 10; 98] = SOk [97; 10; 98] /\
+  set_get_mem [97; 34; 98; 39; 99] = Some [97; 34; 98; 39; 99] /\
+  set_save_get [97; 34; 39; 35] = SOk [97; 34; 39; 35].
+Proof. exact roundtrip_repaired_examples. Qed.
